@@ -21,7 +21,7 @@ func init() {
 			`R13.4 every magic constant written has a reader expecting the same constant; R13.5 in package wire the byte count returned by a Read call is never discarded (a source may return 0, nil at a save point); R13.6 every success return of ReadMessage has passed msg.Reset() and the unmarshalling of the bytes just read (decoding merges, so without the reset an all-default message reads back as its predecessor). ` +
 			`R13.7 WriteMessage writes the varint length and then the marshalled bytes on every success path, empty payloads included; R13.8 every success return of WriteContext.Close has tested the writer against an interface with a Close method and, on the branch where the test held, invoked it (CompressWire hands the compressor to a WriteContext: its Close writes the final block and trailer that make the stream end). ` +
 			`R13.9 every success path of Resume stores a save state other than 'has a source checkpoint', or reaches the return through a test that shows the state is another one. ` +
-			`R13.10 reader and writer agree on message length limits; R13.11 the source DecompressWire hands to NewReadContext derives on every branch from Section(offset, size-offset) and was resumed from nil; R07.5 (shared) streams are decompressed as their own header declares. R13.12 CompressWire hands back its input context only through the outcome Algorithm == NONE. R13.13 when a registered compressor hands back a wrapper type of the module, the wrapper has a Close and every success return of it lies behind the codec's Close (an 'already closed' flag that Close sets excepted); R13.3 looks for the codec's constructor in the wrapper's methods; R13.7 also accepts one Write of (*proto.Buffer).Bytes() after EncodeMessage as prefix and payload. R15.7 (shared) nothing that belongs to a pooled object is returned behind a deferred sync.Pool.Put or used after a plain one. NOT decided: the round trip itself, buffer regrowth, decompressor checkpoints lagging the message offset (savior's code).`,
+			`R13.10 reader and writer agree on message length limits; R13.11 the source DecompressWire hands to NewReadContext derives on every branch from Section(offset, size-offset) and was resumed from nil; R07.5 (shared) streams are decompressed as their own header declares. R13.12 CompressWire hands back its input context only through the outcome Algorithm == NONE. R13.13 when a registered compressor hands back a wrapper type of the module, the wrapper has a Close and every success return of it lies behind the codec's Close (an 'already closed' flag that Close sets excepted); R13.3 looks for the codec's constructor in the wrapper's methods; R13.7 also accepts one Write of (*proto.Buffer).Bytes() after EncodeMessage as prefix and payload. R15.7 (shared) nothing that belongs to a pooled object is returned behind a deferred sync.Pool.Put or used after a plain one. R13.14 no return of a registered codec's Apply (compressor or decompressor) hands back the stream it was given. NOT decided: the round trip itself, buffer regrowth, decompressor checkpoints lagging the message offset (savior's code).`,
 		Assumptions: []string{"the underlying source is the field source of wire.ReadContext"},
 		Run:         runC13,
 	})
@@ -470,6 +470,22 @@ func ruleCodecPairing(c *core.Ctx, rule string) {
 				}
 				if kind == "RegisterCompressor" {
 					ruleWrappedStreamIsFinished(c, "R13.13", apply)
+				}
+				// R13.14: the other side applies its codec for the algorithm alone, whatever the quality: a codec
+				// never hands back the very stream it was given ("this setting does not compress anyway")
+				c.Rule("R13.14", "a registered codec never hands back the stream it was given")
+				if len(apply.Params) >= 2 {
+					given := apply.Params[1]
+					for _, rs := range core.Returns(apply, 0) {
+						same := false
+						for _, o := range core.Origins(rs.Val) {
+							if core.StripConv(o) == ssa.Value(given) {
+								same = true
+							}
+						}
+						c.Check(!same, "R13.14", core.FnName(apply), kind+"("+algName[k]+"): what is returned is not the stream given", core.InstrPos(rs.Ret),
+							"the stream returned is built by the codec", "for some setting the codec registered for "+algName[k]+" returns the stream it was given, unwrapped: the other side decides by the algorithm alone and still applies its codec, so what was written that way cannot be read back (gzip: invalid header)")
+					}
 				}
 				c.Check(okName, rule, core.FnName(apply), kind+"("+algName[k]+") builds a "+strings.ToLower(algName[k])+" stream", apply.Pos(),
 					"constructor "+ctor+" comes from a package named after the algorithm", "the codec registered for "+algName[k]+" builds its stream with "+ctor+", which is not a "+strings.ToLower(algName[k])+" implementation: the other side cannot decode it")
